@@ -23,8 +23,18 @@
     are aligned (`HeldOkL`). Invariant `LInv` (Proofs/OwnLowerInv.lean): counter + open accounts of
     the threads = number of zero bits, a marked huge frame has an empty bitfield and no open account.
 
-  PARTIAL: the all-interleavings statement for the upper level (tree counters, reservations,
-  local slots) is not a theorem. That part is explored by the trace co-simulation: real threads under a deterministic scheduler
+  * `conc_public_api_blocks_disjoint` — **every interleaving of any number of threads at the
+    public interface**: `LLFree::get` (any request, with or without target frame; every path —
+    own reservation with sync, `search_and_reserve`, `reserve_or_steal`, `steal_global`,
+    stealing/demoting other slots) and `LLFree::put` of held blocks at their allocation order,
+    started from ANY contents of the tree array and the local slots. The upper level only
+    writes these volatile arrays (`Neut`) and calls `Lower::get`/`Lower::put`, so the lower
+    invariant carries over: blocks held by the threads are pairwise disjoint, aligned, allocated.
+
+    Held blocks lie inside the managed range (`inRangeS`, `inRangeH`); `drain` may be interleaved.
+
+  PARTIAL: callers that free a *part* of a block (an order smaller than the allocation's) under
+  interleavings are not covered by the all-interleavings theorems. That part is explored by the trace co-simulation: real threads under a deterministic scheduler
   (preemption-bounded DFS + random schedules), every event replayed on the Lean interleaving
   semantics (`Th.step`), ownership oracle after every returned allocation and at quiescent ends.
 -/
@@ -32,6 +42,7 @@ import LLFreeV.Props.C12
 import LLFreeV.Proofs.UpperInit
 import LLFreeV.Proofs.OwnThreads
 import LLFreeV.Proofs.OwnLowerThreads
+import LLFreeV.Proofs.OwnUpperThreads
 import LLFreeV.Props.C06
 namespace LLFree.C01
 open LLFree
@@ -153,7 +164,7 @@ theorem conc_invariant_all_schedules {α : Type} (G : Owned → Prop) (Post : α
     order), `Lower::get_at` and `Lower::put` of blocks they hold; the scheduler picks the thread
     of every single atomic access. In every state reached (`LowerConcOk`): blocks of different
     threads are disjoint — small/small (`disjS`), huge/huge (`disjH`), small/huge (`disjSH`) —,
-    every held frame is marked allocated, and a finished thread holds exactly the valid,
+    every held frame is marked allocated and lies inside the managed range, and a finished thread holds exactly the valid,
     aligned, pairwise disjoint blocks it reports. -/
 theorem conc_lower_blocks_disjoint (c : Cfg) (ok : GeomOk16 c.geom) (m : Mem) (inv : LowerInv c m) (n retries : Nat)
     (cmds : Nat → List LCmd) (sched : List Nat) (hsched : ∀ k ∈ sched, k < n) :
@@ -168,6 +179,28 @@ theorem conc_lower_invariant_all_schedules {α : Type} (g : Geom) (okg : GeomOk 
     (ghs : Nat → Gh) (inv : LInv true g n F Post m ths ghs) :
     ∃ ghs', LInv true g n F Post (concRun sched (m, ths)).1 (concRun sched (m, ths)).2 ghs' :=
   LInv.run okg hhf sched hsched m ths ghs inv
+
+/-- **Every interleaving, any number of threads, the public interface.** Threads `k < n` run
+    arbitrary lists of `get` (any request), `put` (blocks they hold, at allocation order) and `drain`;
+    the tree array and the slots may hold anything at the start. In every state reached the
+    holdings are pairwise disjoint (small/small, huge/huge, small/huge: `ConcFacts`), every held
+    frame is marked allocated and lies inside the managed range, and a finished thread holds exactly the valid aligned pairwise
+    disjoint blocks its successful `get`s returned and it has not freed (`HeldOkL`). Upper-level
+    panics are tolerated here (a trapped thread keeps its holdings); panic-freedom is C03/C09. -/
+theorem conc_public_api_blocks_disjoint (c : Cfg) (ok : GeomOk16 c.geom) (m : Mem) (inv : LowerInv c m) (ht : m.trees.size = c.ntrees)
+    (n : Nat) (cmds : Nat → List UCmd) (sched : List Nat) (hsched : ∀ k ∈ sched, k < n) :
+    ∃ ghs, ConcFacts c.geom c.frames (concRun sched (m, fun k => Th.at (runU c (cmds k) ⟨[], []⟩))).1 ghs ∧
+      (∀ k, k < n → match ((concRun sched (m, fun k => Th.at (runU c (cmds k) ⟨[], []⟩))).2 k).step
+            (concRun sched (m, fun k => Th.at (runU c (cmds k) ⟨[], []⟩))).1 with
+        | .done held => ghs k = ghOf c.geom held ∧ HeldOkL c.geom held
+        | _ => True) := by
+  obtain ⟨ghs, h1, h2, _⟩ := upper_threads_safe ok m inv ht n cmds sched hsched
+  exact ⟨ghs, h1, h2⟩
+
+/-- one public `get` of one thread among many: a success adds exactly an aligned block nobody
+    held to the thread's holdings, a failure adds nothing -/
+theorem conc_get_returns_unheld_block (c : Cfg) (ok : GeomOk16 c.geom) (gh : Gh) (frame : Option Nat) (r : Request) :
+    SafeL false c.geom (UGetPost c.geom gh r.order) gh (get c frame r) := get_L c ok gh frame r
 
 /-- the premises are satisfiable: the freshly initialised tiny allocator is a quiescent state -/
 example : ∃ (c : Cfg) (m : Mem), GeomOk16 c.geom ∧ LowerInv c m :=
